@@ -224,7 +224,8 @@ def facts_at(func, node):
                 # guard clauses before st in this block
                 for j, prev in enumerate(block[:k]):
                     if isinstance(prev, ast.If) and not prev.orelse and _leaves_block(prev.body):
-                        kill([prev])
+                        # (on the way that goes on, the body of the guard clause did not run: only the test itself was evaluated)
+                        kill([ast.Expr(value=prev.test)])
                         add_test_facts(prev.test, negated=True)
                     elif isinstance(prev, ast.If) and prev.orelse and _leaves_block(prev.orelse) and not _leaves_block(prev.body):
                         # the test held when the body was entered: what the body (and the test itself) writes afterwards kills it
